@@ -815,22 +815,7 @@ def in_progress(e):
     return And(CA.OO.is_some(e), CA.OI.is_none(CA.OO.val(e)))
 
 
-USE_CACHED = Contract(
-    'file_builder.cache.Cache.use_cached_operation', props=['C08', 'C01'], trusted=True,
-    params={'self': OBJ('Cache'), 'operation': OBJ('ComplexOperation')},
-    ensures=lambda c: [
-        # a reuse registers finished records; it never creates (or resolves) a claim in progress
-        ('claims-in-progress-unchanged', ForAll([xs_], And(
-            in_progress(c.new('Cache._norm_cased_files', c.self)[xs_])
-            == in_progress(c.old('Cache._norm_cased_files', c.self)[xs_]),
-            in_progress(c.new('Cache._files', c.self)[xs_])
-            == in_progress(c.old('Cache._files', c.self)[xs_]))))],
-    raises=[ExcSpec('RuntimeError', modifies=NOTHING)],
-    modifies=lambda c: [('Cache._files', c.self), ('Cache._norm_cased_files', c.self),
-                        ('Cache._subbuilds', c.self)],
-    notes='all-or-nothing registration of a reused subtree (recursion over the record tree: '
-          'bounded stand-in, see bounded/registry.json)')
-CONTRACTS.append(USE_CACHED)
+# (Cache.use_cached_operation: contract and verification after the record predicates below)
 
 
 # ---------------------------------------------------------------------------------------------------
@@ -1040,7 +1025,7 @@ RWF = z3.Function('record_wf', ObjS, z3.BoolSort())
 qr_ = z3.Const('fb!r', ObjS)
 
 
-def record_axioms(c):
+def record_axioms(c, with_versions=True):
     """ghost predicates over the record forest of the old cache: VOK is defined by its fixpoint
     equation; RWF is the type invariant of records read from a cache file (assumed of the input):
     JSON arguments and results, known comparison names, children well-formed"""
@@ -1057,12 +1042,15 @@ def record_axioms(c):
         Implies(cls_of(qr_) == CLS['SimpleOperation'], J.eqdom(rd('Operation.return_value', qr_))),
         Or(is_complex(qr_), cls_of(qr_) == CLS['SimpleOperation']))
     kids = ForAll([qi_], Implies(And(0 <= qi_, qi_ < z3.Length(s)), RWF(s[qi_])))
+    out = [('def-record-type-invariant', ForAll([qr_], Implies(RWF(qr_), And(
+                local, Implies(is_complex(qr_), kids)))))]
+    if not with_versions:
+        return out
     return [('def-versions-ok', ForAll([qr_], Implies(RWF(qr_), VOK(qr_) == And(
                 versions_equal(c, rd(FN, qr_)),
                 ForAll([qi_], Implies(And(0 <= qi_, qi_ < z3.Length(s), is_complex(s[qi_])),
                                       VOK(s[qi_]))))))),
-            ('def-record-type-invariant', ForAll([qr_], Implies(RWF(qr_), And(
-                local, Implies(is_complex(qr_), kids)))))]
+            ] + out
 
 
 # NBF(o): number of build-file records below o that did not raise (also below raised ones): the
@@ -1085,6 +1073,188 @@ def nbf_axioms(c):
             And(RWF(qr_), 0 <= qi_, qi_ < z3.Length(s)),
             And(NBFP(qr_, qi_ + 1) == NBFP(qr_, qi_) + nbf_term(c, s[qi_]),
                 NBFP(qr_, qi_) >= 0))))]
+
+
+# ---------------------------------------------------------------------------------------------------
+# registration of a reused subtree in the new cache: Cache.use_cached_operation, _assert_no_repeats,
+# _use_cached_operation (C08: a duplicate hidden in a reused subtree is refused; C01: everything
+# reused counts as built).  Verified since round 4 (was a trusted contract with the bounded
+# stand-in cache_forest).  INSUB(r, o): r is o or below o -- least relation with these constructors;
+# defined through its prefix version INSUBP, so no existential is needed.
+INSUB = z3.Function('in_subtree', ObjS, ObjS, z3.BoolSort())
+INSUBP = z3.Function('in_subtree_prefix', ObjS, ObjS, z3.IntSort(), z3.BoolSort())
+qo_ = z3.Const('fb!o', ObjS)
+qk_ = z3.Const('fb!hk', CA.HKeyS)
+CACHE_REG = [('Cache._files', ), ('Cache._norm_cased_files', ), ('Cache._subbuilds', )]
+
+
+def insub_axioms(c):
+    """INSUB(r, o): r is o or lies below o; INSUBP(r, o, i): r lies in the subtree of one of the
+    first i suboperations of o.  Least solution of the two defining equations (reachability in
+    the record forest); `step` is a consequence in that model (by induction on i) that the solver
+    cannot derive itself"""
+    s = c.old(SUBOPS, qo_)
+    return [('def-subtree', ForAll([qr_, qo_], INSUB(qr_, qo_) == Or(
+                qr_ == qo_, And(is_complex(qo_), INSUBP(qr_, qo_, z3.Length(s)))))),
+            ('def-subtree-prefix-0', ForAll([qr_, qo_], Not(INSUBP(qr_, qo_, 0)))),
+            ('def-subtree-prefix', ForAll([qr_, qo_, qi_], Implies(
+                And(0 <= qi_, qi_ < z3.Length(s)),
+                INSUBP(qr_, qo_, qi_ + 1) == Or(INSUBP(qr_, qo_, qi_), INSUB(qr_, s[qi_]))))),
+            ('def-subtree-step', ForAll([qr_, qo_, qi_], Implies(
+                And(is_complex(qo_), 0 <= qi_, qi_ < z3.Length(s), INSUB(qr_, s[qi_])),
+                INSUB(qr_, qo_))))]
+
+
+def sbkey(c, r):
+    """what Cache.subbuild_key answers for record r (its verified contract)"""
+    return J.hsh(PyV.PList(PyVs.cons(PyV.PStr(c.old(FN, r)), PyVs.cons(
+        c.old(ARGS, r), PyVs.cons(c.old(KWARGS_F, r), PyVs.nil)))))
+
+
+def counts(c, r):
+    """records that take part in the registration: build-file and subbuild records whose set-up
+    did not fail"""
+    return And(is_complex(r), Not(c.old(SETUPF, r)))
+
+
+def key_free(c, r, st):
+    """nothing is claimed or registered under r's key"""
+    rd = getattr(c, st)
+    return And(
+        Implies(cls_of(r) == CLS['BuildFileOperation'],
+                Not(CA.OO.is_some(rd(NCF, c.self)[c.old('BuildFileOperation.filename', r)]))),
+        Implies(cls_of(r) == CLS['SubbuildOperation'],
+                Not(CA.OSB.is_some(rd('Cache._subbuilds', c.self)[CA.hkey(sbkey(c, r))]))))
+
+
+def registered(c, r, st='new'):
+    rd = getattr(c, st)
+    fn = c.old('BuildFileOperation.filename', r)
+    e = rd('Cache._subbuilds', c.self)[CA.hkey(sbkey(c, r))]
+    return And(
+        Implies(cls_of(r) == CLS['BuildFileOperation'],
+                And(CA.entry_record(rd('Cache._files', c.self)[fn]),
+                    CA.entry_record(rd(NCF, c.self)[fn]))),
+        Implies(cls_of(r) == CLS['SubbuildOperation'],
+                And(CA.OSB.is_some(e), CA.OSI.is_some(CA.OSB.val(e)))))
+
+
+def file_entry_from(c, field, op, x_, st0, st1='new'):
+    """entry x of a file map is unchanged or is now a record of the subtree of `op` with path x"""
+    e1 = getattr(c, st1)(field, c.self)[x_]
+    e0 = getattr(c, st0)(field, c.self)[x_]
+    r = CA.rec_of(e1)
+    return Or(e1 == e0, And(CA.entry_record(e1), INSUB(r, op), counts(c, r),
+                            cls_of(r) == CLS['BuildFileOperation'],
+                            c.old('BuildFileOperation.filename', r) == x_))
+
+
+def sub_entry_from(c, op, k_, st0, st1='new'):
+    e1 = getattr(c, st1)('Cache._subbuilds', c.self)[k_]
+    e0 = getattr(c, st0)('Cache._subbuilds', c.self)[k_]
+    r = CA.OSI.val(CA.OSB.val(e1))
+    return Or(e1 == e0, And(CA.OSB.is_some(e1), CA.OSI.is_some(CA.OSB.val(e1)), INSUB(r, op),
+                            counts(c, r), cls_of(r) == CLS['SubbuildOperation'],
+                            CA.hkey(sbkey(c, r)) == k_))
+
+
+def reuse_req(c):
+    """what the callers hand over: the record of the current call (JSON arguments) carrying the
+    suboperations of a record of the previous build"""
+    s = c.old(SUBOPS, c.operation)
+    return record_axioms(c, False) + insub_axioms(c) + [
+        ('is-complex', is_complex(c.operation)),
+        ('own-args-json', And(J.sanitized(c.old(ARGS, c.operation)),
+                              J.sanitized(c.old(KWARGS_F, c.operation)))),
+        ('suboperations-are-old-records',
+         ForAll([qi_], Implies(And(0 <= qi_, qi_ < z3.Length(s)), RWF(s[qi_]))))]
+
+
+CACHE_REG_MODS = lambda c: [('Cache._files', c.self), ('Cache._norm_cased_files', c.self),
+                            ('Cache._subbuilds', c.self)]
+
+ASSERT_NO_REPEATS = Contract(
+    'file_builder.cache.Cache._assert_no_repeats', props=['C08', 'C01'],
+    params={'self': OBJ('Cache'), 'operation': OBJ('ComplexOperation')},
+    requires=reuse_req,
+    ensures=lambda c: [
+        ('no-key-of-the-subtree-is-taken', ForAll([qr_], Implies(
+            And(INSUB(qr_, c.operation), counts(c, qr_)), key_free(c, qr_, 'old'))))],
+    raises=[ExcSpec('RuntimeError', modifies=NOTHING)],
+    modifies=NOTHING,
+    loops={0: LoopSpec(inv=lambda c: [
+        ('same-list', c.loop['seq'] == c.entry(SUBOPS, c.operation)),
+        ('children-so-far-are-free', ForAll([qr_], Implies(
+            And(INSUBP(qr_, c.operation, c.loop['i']), counts(c, qr_)),
+            key_free(c, qr_, 'old'))))])},
+)
+CONTRACTS.append(ASSERT_NO_REPEATS)
+
+USE_CACHED_INNER = Contract(
+    'file_builder.cache.Cache._use_cached_operation', props=['C08', 'C01'],
+    params={'self': OBJ('Cache'), 'operation': OBJ('ComplexOperation')},
+    requires=reuse_req,
+    # no exceptional exit (raises=[]): a registration that stops half-way would leave part of the
+    # subtree registered
+    ensures=lambda c: [
+        ('only-records-of-the-subtree-are-entered', And(
+            ForAll([xs_], And(file_entry_from(c, 'Cache._files', c.operation, xs_, 'old'),
+                              file_entry_from(c, NCF, c.operation, xs_, 'old'))),
+            ForAll([qk_], sub_entry_from(c, c.operation, qk_, 'old')))),
+        ('every-record-of-the-subtree-is-registered', ForAll([qr_], Implies(
+            And(INSUB(qr_, c.operation), counts(c, qr_)), registered(c, qr_))))],
+    modifies=CACHE_REG_MODS,
+    loops={0: LoopSpec(inv=lambda c: [
+        ('same-list', c.loop['seq'] == c.entry(SUBOPS, c.operation)),
+        ('only-records-of-the-subtree-are-entered', And(
+            ForAll([xs_], And(file_entry_from(c, 'Cache._files', c.operation, xs_, 'entry'),
+                              file_entry_from(c, NCF, c.operation, xs_, 'entry'))),
+            ForAll([qk_], sub_entry_from(c, c.operation, qk_, 'entry')))),
+        ('itself-registered', Implies(counts(c, c.operation), registered(c, c.operation))),
+        ('children-so-far-are-registered', ForAll([qr_], Implies(
+            And(INSUBP(qr_, c.operation, c.loop['i']), counts(c, qr_)),
+            registered(c, qr_))))], modifies=CACHE_REG_MODS)},
+)
+CONTRACTS.append(USE_CACHED_INNER)
+
+USE_CACHED = Contract(
+    'file_builder.cache.Cache.use_cached_operation', props=['C08', 'C01'],
+    params={'self': OBJ('Cache'), 'operation': OBJ('ComplexOperation')},
+    requires=reuse_req,
+    ensures=lambda c: [
+        # a reuse registers finished records; it never creates (or resolves) a claim in progress
+        ('claims-in-progress-unchanged', ForAll([xs_], And(
+            in_progress(c.new('Cache._norm_cased_files', c.self)[xs_])
+            == in_progress(c.old('Cache._norm_cased_files', c.self)[xs_]),
+            Implies(in_progress(c.new('Cache._files', c.self)[xs_]),
+                    in_progress(c.old('Cache._files', c.self)[xs_]))))),
+        # C08: "without disturbing ... the cache record of the first call"
+        ('records-of-earlier-calls-untouched', And(
+            ForAll([xs_], Implies(CA.OO.is_some(c.old(NCF, c.self)[xs_]),
+                                  c.new(NCF, c.self)[xs_] == c.old(NCF, c.self)[xs_])),
+            ForAll([qk_], Implies(CA.OSB.is_some(c.old('Cache._subbuilds', c.self)[qk_]),
+                                  c.new('Cache._subbuilds', c.self)[qk_]
+                                  == c.old('Cache._subbuilds', c.self)[qk_])))),
+        # C08: "implied because a cached subtree containing it is being reused - raises": a normal
+        # return means no key of the subtree was taken before the call
+        ('returns-only-if-no-key-of-the-subtree-was-taken', ForAll([qr_], Implies(
+            And(INSUB(qr_, c.operation), counts(c, qr_)), key_free(c, qr_, 'old')))),
+        # C08/C01: everything reused counts as built in this build
+        ('every-record-of-the-subtree-is-registered', ForAll([qr_], Implies(
+            And(INSUB(qr_, c.operation), counts(c, qr_)), registered(c, qr_))))],
+    raises=[ExcSpec('RuntimeError', modifies=NOTHING)],
+    modifies=CACHE_REG_MODS,
+    notes='all-or-nothing registration of a reused subtree: the only exceptional exit leaves the '
+          'cache unchanged')
+USE_CACHED.lock_guards = {'Cache._files': '_files_lock', 'Cache._norm_cased_files': '_files_lock',
+                          'Cache._subbuilds': '_subbuilds_lock'}
+# C08: check and registration are one atomic step with respect to the claims of other threads
+USE_CACHED.lock_calls = {
+    'cache.Cache._assert_no_repeats': ['_files_lock', '_subbuilds_lock'],
+    'cache.Cache._use_cached_operation': ['_files_lock', '_subbuilds_lock']}
+CONTRACTS.append(USE_CACHED)
+
+
 
 
 def cf_inv(c, st, cf):
